@@ -9,7 +9,9 @@ Case kinds (`op`):
   sumwin   `_sum_track_signal` on one column (exhaustive small scope + random)
   rect     `_to_pixel_rect`
   units    `KymoTrack.seconds/position/coordinate_idx/duration`
-  edit     programs of interpolate/split/merge/filter/refine/track_lines: structural invariants only (oracle)
+  edit     programs of interpolate/split/merge/filter/refine on the result of track_greedy or track_lines, also with
+           refinement/interpolation of only SOME of the tracks before a merge (tracks of different provenance in one
+           group): structural invariants and units after every step (oracle only)
   badparam the malformed stream: parameters `track_greedy` must refuse
 """
 import importlib
@@ -64,7 +66,12 @@ RULE = (
     "um/kbp/pixel units, dyadic and non-dyadic line times, all track_greedy parameters (threshold or percentile, "
     "track width 3-9 px, window 0-8, sigma or default, velocity, diffusion, sigma_cutoff, rectangle, adjacency "
     "filter, bias correction, filter width); synthetic peak lists (<=12 frames x <=5 peaks, cone-edge biased); "
-    "programs of interpolate/split/merge/filter/refine/track_lines; a malformed stream of refused parameters. "
+    "programs of interpolate/split/merge/filter/refine/track_lines; border-biased images (binding sites that are "
+    "occupied, dark for up to the whole kymograph and occupied again, present on the first and/or last scan line, on the "
+    "first/last pixel rows, spots that drift out of the image) with pixel sizes below and above one unit (1.25, 2, 3.3), "
+    "used for extra track_greedy cases, for track_lines cases and for programs that refine/interpolate only a subset of "
+    "the tracks and then merge (different tracks at any nodes; last point to first point of a later track), split and "
+    "filter; a malformed stream of refused parameters. "
     "Non-trivial: a greedy/link case in which at least one link was made and at least one candidate was left "
     "unlinked (>=2 tracks); a window that is clipped by the image edge or lies strictly inside; a rectangle that "
     "removes some but not all detections."
@@ -509,12 +516,45 @@ def run_edit(case):
                         group = kt.refine_tracks_gaussian(group, window=st[1], refine_missing_frames=st[2], overlap_strategy=st[3])
                     elif name == "remove_rect":
                         group.remove_tracks_in_rect([list(st[1][0]), list(st[1][1])], st[2])
+                    elif name == "interpolate_some" and len(group):
+                        # only the selected tracks are interpolated, the others keep their localisation as it is
+                        sel = _selected(st[1], len(group))
+                        group = kk.KymoTrackGroup([t.interpolate() if s_ else t for t, s_ in zip(group, sel)])
+                    elif name == "refine_centroid_some" and len(group):
+                        sel = _selected(st[1], len(group))
+                        done = kt.refine_tracks_centroid(group[sel], track_width=st[2], bias_correction=st[3])
+                        group = done + group[[not s_ for s_ in sel]]
+                    elif name == "refine_gaussian_some" and len(group):
+                        sel = _selected(st[1], len(group))
+                        done = kt.refine_tracks_gaussian(group[sel], window=st[2], refine_missing_frames=st[3], overlap_strategy=st[4])
+                        group = done + group[[not s_ for s_ in sel]]
+                    elif name == "merge_other" and len(group) >= 2:
+                        # two different tracks, the one that starts first connected to the other
+                        i = st[1] % len(group)
+                        j = (i + 1 + st[3] % (len(group) - 1)) % len(group)
+                        a, b = group[i], group[j]
+                        group._merge_tracks(a, st[2] % len(a), b, st[4] % len(b))
+                    elif name == "merge_ends" and len(group) >= 2:
+                        # the usual use: the last point of a track connected to the first point of a later one
+                        i = st[1] % len(group)
+                        a = group[i]
+                        later = [t for t in group if t is not a and int(t.time_idx[0]) > int(a.time_idx[-1])]
+                        if later:
+                            group._merge_tracks(a, len(a) - 1, later[st[2] % len(later)], 0)
                 steps.append({"step": name, "tracks": dump_group(group)})
             except (ValueError, RuntimeError) as e:
                 steps.append({"step": name, "refused": errname(e)})
         return ["ok " + json.dumps({"steps": steps})], ops
     except Exception as e:
         return [errname(e)], ops
+
+
+def _selected(bits, n):
+    """which of n tracks a subset operation applies to: bit (i mod 16) of `bits`; never none of them"""
+    sel = [bool((bits >> (i % 16)) & 1) for i in range(n)]
+    if not any(sel):
+        sel[bits % n] = True
+    return sel
 
 
 RUNNERS = {
@@ -553,6 +593,11 @@ def agree(case, i, ia, ma):
         first = ia.split(" ", 1)[0]
         if first == ma:
             return True
+        if case.get("tracker") == "lines":
+            # the op is a carrier of the dump only (track_lines has no modelled parameter validation). track_lines
+            # gives up with a ValueError on images without a single line-like pixel (all dark, a smooth gradient, some
+            # 3-line images): no track is produced, the property says nothing about it; counted in error_kinds
+            return ma == "ok" and first == "ValueError"
         if ma == "ok" and first == "RuntimeError" and case["op"] in ("greedy", "badparam", "edit"):
             # "threshold not above the lowest filtered pixel": depends on SciPy's filter, outside the model
             return _threshold_below_min(case)
@@ -762,6 +807,24 @@ def oracle_edit(case, ia):
             for k, t in enumerate(st["tracks"]):
                 if not t["t"]:
                     return f"well-formed: after {st['step']} track {k} is empty"
+            r = units_ok(st["tracks"], pixel_size(case), case["line_time"], "after " + st["step"] + ":")
+            if r:
+                return r
+    return None
+
+
+def units_ok(tracks, ps, lt, where):
+    """times = line indices * line time, positions = pixel coordinates * pixel size, duration = last - first time"""
+    for k, t in enumerate(tracks):
+        if not (len(t["sec"]) == len(t["t"]) and len(t["cidx"]) == len(t["pos"])):
+            return f"units: {where} track {k} has {len(t['t'])} line indices, {len(t['sec'])} times, {len(t['cidx'])} pixel coordinates, {len(t['pos'])} positions"
+        for i, tt in enumerate(t["t"]):
+            if not _close(t["sec"][i], tt * lt, 1e-12):
+                return f"units: {where} track {k} seconds {t['sec'][i]} != line {tt} * line time {lt}"
+            if not _close(t["pos"][i], t["cidx"][i] * ps, 1e-12, 1e-300):
+                return f"units: {where} track {k} position {t['pos'][i]} != pixel coordinate {t['cidx'][i]} * pixel size {ps}"
+        if t["t"] and not _close(t["dur"], t["t"][-1] * lt - t["t"][0] * lt, 1e-9, 1e-15 * max(1.0, abs(t["t"][-1] * lt))):
+            return f"units: {where} track {k} duration {t['dur']} != last - first time = {t['t'][-1] * lt - t['t'][0] * lt}"
     return None
 
 
@@ -845,11 +908,15 @@ def shrink(case):
     if k in ("greedy", "edit"):
         img = case["image"]
         nl = len(img[0])
-        if nl > 1:
-            for keep in (nl // 2, nl - 1):
+        min_lines = 3 if case.get("tracker") == "lines" else 1  # track_lines is only run on kymographs of >= 3 lines
+        if nl > min_lines:
+            for keep in (max(nl // 2, min_lines), nl - 1):
                 c = dict(case)
                 c["image"] = [row[:keep] for row in img]
                 yield c
+            c = dict(case)
+            c["image"] = [row[1:] for row in img]  # drop the first scan line
+            yield c
         if len(img) > 6:
             c = dict(case)
             c["image"] = img[:-1]
@@ -918,8 +985,43 @@ def gen_image(rng, n_pixels, n_lines, n_spots, bg):
     return [[poisson(rng, mean[r][t]) for t in range(n_lines)] for r in range(n_pixels)]
 
 
+def gen_image_seg(rng, n_pixels, n_lines, n_spots, bg):
+    """border-biased images: binding sites that are occupied, dark for a (possibly long) while and occupied again, that
+    are already there on the first scan line and/or still there on the last one, that sit on or next to the first/last
+    pixel row, and drifting spots that leave the image through the top or bottom row"""
+    mean = [[bg] * n_lines for _ in range(n_pixels)]
+    for _ in range(n_spots):
+        x = rng.choice([0.0, 0.5, 1.0, n_pixels - 1.0, n_pixels - 1.5, n_pixels - 2.0]) if rng.chance(0.3) else rng.uniform(1, n_pixels - 2)
+        v = rng.choice([0.0, 0.0, 0.0, rng.uniform(-0.7, 0.7)])
+        sd = rng.choice([0.0, 0.0, 0.3, 0.8])
+        amp = rng.uniform(4, 25)
+        psf = rng.uniform(0.6, 1.4)
+        blink = rng.choice([0.0, 0.0, 0.15])
+        leave = rng.chance(0.5)
+        # on/off intervals
+        on = [False] * n_lines
+        t = 0 if rng.chance(0.6) else rng.randint(0, n_lines - 1)
+        while t < n_lines:
+            length = rng.randint(1, max(1, n_lines // 2))
+            for q in range(t, min(n_lines, t + length)):
+                on[q] = True
+            t += length + rng.choice([1, 2, rng.randint(1, max(1, n_lines // 2)), rng.randint(3, 14), n_lines])
+        if rng.chance(0.5):
+            for q in range(n_lines - rng.randint(1, max(1, n_lines // 3)), n_lines):
+                on[q] = True
+        for t in range(n_lines):
+            if on[t] and not rng.chance(blink):
+                for r in range(n_pixels):
+                    mean[r][t] += amp * math.exp(-((r - x) ** 2) / (2 * psf**2))
+            x += v + sd * rng.normal()
+            if not leave:
+                x = min(max(x, 0.0), n_pixels - 1.0)
+    return [[poisson(rng, mean[r][t]) for t in range(n_lines)] for r in range(n_pixels)]
+
+
 LINE_TIMES = [0.5, 0.125, 1.0, 2.0, 0.1, 0.03, 0.0123]
 PIXEL_SIZES = [None, 0.1, 0.05, 0.25, 1.0, 0.5, 0.0817]
+PIXEL_SIZES_WIDE = PIXEL_SIZES + [1.25, 2.0, 3.3, 1.25, 2.0, 3.3]  # pixels larger than one unit as often as smaller ones
 
 
 def off_grid(rng, unit, lo, hi, dyadic):
@@ -934,13 +1036,16 @@ def is_dyadic(x):
     return Fraction(x).denominator & (Fraction(x).denominator - 1) == 0 and Fraction(x).denominator <= 1024
 
 
-def gen_greedy(rng, big=False):
+def gen_greedy(rng, big=False, seg=False, pixel_sizes=PIXEL_SIZES):
     n_pixels = rng.randint(6, 60 if big else 30)
     n_lines = rng.choice([1, 2, 3]) if rng.chance(0.08) else rng.randint(4, 200 if big else 45)
     bg = rng.choice([0.05, 0.3, 1.0, 2.5])
-    image = gen_image(rng, n_pixels, n_lines, rng.randint(0, 4), bg)
+    if seg:
+        image = gen_image_seg(rng, n_pixels, n_lines, rng.randint(1, 4), bg)
+    else:
+        image = gen_image(rng, n_pixels, n_lines, rng.randint(0, 4), bg)
     case = {"op": "greedy", "image": image, "line_time": rng.choice(LINE_TIMES)}
-    psu = rng.choice(PIXEL_SIZES)
+    psu = rng.choice(pixel_sizes)
     case["pixel_size_um"] = psu
     if psu is not None and rng.chance(0.2):
         case["kbp"] = rng.choice([48.502, 10.0, float(n_pixels)])
@@ -1034,6 +1139,60 @@ def gen_edit(rng):
             c, d = sorted([rng.uniform(0, n_pixels * ps), rng.uniform(0, n_pixels * ps)])
             prog.append(["remove_rect", [[a, c], [b, d]], rng.chance(0.5)])
     case["program"] = prog
+    return case
+
+
+def gen_program(rng, case, rounds):
+    """editing programs in rounds: refinement / interpolation applied to SOME of the tracks only (as after
+    `refine(tracks[:k]) + tracks[k:]`), then merges (and splits, filters), so that tracks of different provenance meet"""
+    ps, lt = pixel_size(case), case["line_time"]
+    prog = []
+    for _ in range(rounds):
+        m = rng.randint(0, 9)
+        bits = rng.randint(0, 65535)
+        if m == 0:
+            prog.append(["interpolate"])
+        elif m <= 3:
+            prog.append(["interpolate_some", bits])
+        elif m <= 5:
+            prog.append(["refine_centroid_some", bits, rng.randint(3, 7) * ps, rng.chance(0.5)])
+        else:
+            prog.append(["refine_gaussian_some", bits, rng.randint(2, 5), rng.chance(0.5), rng.choice(["ignore", "skip", "simultaneous"])])
+        for _ in range(rng.randint(1, 2)):
+            if rng.chance(0.5):
+                prog.append(["merge_other", rng.randint(0, 20), rng.randint(0, 20), rng.randint(0, 20), rng.randint(0, 20)])
+            else:
+                prog.append(["merge_ends", rng.randint(0, 20), rng.randint(0, 20)])
+        if rng.chance(0.3):
+            prog.append(["split", rng.randint(0, 20), rng.randint(0, 20), rng.randint(1, 3)])
+        if rng.chance(0.2):
+            prog.append(["filter", rng.randint(1, 3), rng.choice([0, lt])])
+    return prog
+
+
+def gen_edit_mixed(rng):
+    """greedy tracking of a border-biased image with any pixel size (smaller and larger than one unit), then a program
+    that refines/interpolates subsets of the tracks and merges"""
+    case = gen_greedy(rng, seg=True, pixel_sizes=PIXEL_SIZES_WIDE)
+    case["op"] = "edit"
+    case["rect"] = None
+    case["adjacency_filter"] = False
+    case["program"] = gen_program(rng, case, rng.randint(1, 3))
+    return case
+
+
+def gen_lines(rng):
+    """line-based tracking of a border-biased image, then a short editing program"""
+    n_pixels = rng.randint(6, 30)
+    n_lines = rng.randint(3, 45)
+    bg = rng.choice([0.05, 0.3, 1.0, 2.5])
+    case = {"op": "edit", "tracker": "lines", "line_time": rng.choice(LINE_TIMES), "pixel_size_um": rng.choice(PIXEL_SIZES_WIDE)}
+    case["image"] = gen_image_seg(rng, n_pixels, n_lines, rng.randint(1, 3), bg)
+    if case["pixel_size_um"] is not None and rng.chance(0.15):
+        case["kbp"] = rng.choice([48.502, 10.0, float(n_pixels)])
+    case["line_width"] = rng.uniform(3, 6) * pixel_size(case)
+    case["max_lines"] = rng.choice([1, 2, 3, 5, 10, rng.randint(1, 8)])
+    case["program"] = gen_program(rng, case, 1)
     return case
 
 
@@ -1157,6 +1316,24 @@ def cases(tier, rng):
         c = gen_edit(sub)
         c.update({"stream": "random-edit", "subseed": i})
         yield c
+    r = rng.fork("c08-greedy-border")
+    for i in range(60 if quick else 1000):
+        sub = r.fork(i)
+        c = gen_greedy(sub, seg=True, pixel_sizes=PIXEL_SIZES_WIDE)
+        c.update({"stream": "random-greedy-border", "subseed": i})
+        yield c
+    r = rng.fork("c08-lines")
+    for i in range(100 if quick else 1500):
+        sub = r.fork(i)
+        c = gen_lines(sub)
+        c.update({"stream": "random-lines", "subseed": i})
+        yield c
+    r = rng.fork("c08-edit-mixed")
+    for i in range(100 if quick else 1500):
+        sub = r.fork(i)
+        c = gen_edit_mixed(sub)
+        c.update({"stream": "random-edit-mixed", "subseed": i})
+        yield c
 
 
 def extra_coverage(results):
@@ -1188,7 +1365,18 @@ def extra_coverage(results):
             k = pixel_of(c["c"])
             if k - c["w"] < 0 or k + c["w"] >= len(c["col"]):
                 clipped += 1
+    steps, refused, line_tracked = {}, {}, 0
+    for r in results:
+        c = r["case"]
+        if c["op"] == "edit" and r["impl"][0].startswith("ok "):
+            line_tracked += c.get("tracker") == "lines"
+            for st in json.loads(r["impl"][0][3:])["steps"]:
+                d = refused if "refused" in st else steps
+                d[st["step"]] = d.get(st["step"], 0) + 1
     return {
+        "edit_steps_done": dict(sorted(steps.items())),
+        "edit_steps_refused": dict(sorted(refused.items())),
+        "edit_cases_tracked_with_track_lines": line_tracked,
         "case_kinds": kinds,
         "error_kinds": errs,
         "greedy_image_sizes": sizes,
